@@ -259,7 +259,7 @@ struct Interp {
     List::const_iterator do_begin()
     {
 #ifdef MODE_C14
-        noblock_begin("rcu read-side: first access / begin()", 20);
+        noblock_begin("rcu read-side: first access / begin()", 32);
 #endif
         List::const_iterator r;
         if (rh) r = (*rh)->begin();
@@ -274,7 +274,7 @@ struct Interp {
     void step()
     {
 #ifdef MODE_C14
-        noblock_begin("rcu read-side: iterator advance", 4);
+        noblock_begin("rcu read-side: iterator advance", 8);
 #endif
         ++it;
 #ifdef MODE_C14
@@ -287,7 +287,7 @@ struct Interp {
         switch (o.k) {
             case H_R:
 #ifdef MODE_C14
-                noblock_begin("rcu read-side: lock_read()", 4);
+                noblock_begin("rcu read-side: lock_read()", 8);
 #endif
                 rh.emplace(rg->lock_read());
 #ifdef MODE_C14
